@@ -356,6 +356,18 @@ def audit(ctx):
                 return min(txt, ast.unparse(negate(e)))
             refatoms = {atom(c) for c in known}
             new = [c for c in worst[1] if atom(c) not in refatoms]
+            if not new and 'twins' in ref and len(ref['twins']) > 1:
+                # several statements with this text: what is known is what
+                # the corresponding one depended on (paired by number of
+                # conditions, as the counts are), not the union over all
+                cur = sorted((sorted(i[1]) for i in items),
+                             key=lambda t: (len(t), t))
+                for ct_, rt_ in zip(cur, ref['twins']):
+                    if len(ct_) > len(rt_):
+                        ra = {atom(c) for c in rt_}
+                        new = [c for c in ct_ if atom(c) not in ra]
+                        if new:
+                            break
             if not new:
                 more = False
         ctx.check(rule, f'{fnname}: `{worst[3]}`', not more,
